@@ -63,6 +63,9 @@ let () =
       (match h with
        | "serve_dir" -> show (StaticFs.serve_dir fs www route uri)
        | "serve_as_file_path" -> show (StaticFs.serve_as_file_path fs www uri)
+       (* library serve_file: the configured file (path below the base, in the "route" argument) whatever is asked; same
+          answer shape as serve_as_file_path asked for that very file from the root *)
+       | "serve_file" -> show (StaticFs.serve_as_file_path fs [] (n_of_int 47 :: route))
        | "serve_as_file_path_old" -> show (StaticFs.serve_as_file_path_old fs www uri)
        | "directory" -> show (StaticFs.directory_handler fs www route uri)
        | _ -> "BADARGS")
